@@ -100,8 +100,11 @@ def model_ops(case):
     """case ops -> model ops (clock readings explicit, in units) and the float readings for the impl."""
     now = case.get("t0", 0)
     mops, reads = [], []
-    for o in case["ops"]:
+    case["_at"] = at = []
+    for ci, o in enumerate(case["ops"]):
         kind = o[0]
+        if kind != "tick":
+            at.append(ci)
         if kind == "tick":
             now = now + o[1]
         elif kind == "get":
@@ -387,11 +390,26 @@ def check_seq(chk, cases, replay=False, probing=True):
         if fin is None:
             chk.count("state_unobservable")
         if diff:
-            found = probe(chk, c) if (probing and not replay) else None
-            if found is None:
-                chk.corr_break("DefaultInMemoryCache vs Cache.run: " + diff, strip(c),
-                               impl={"results": res, "final": fin, "states": sts if nops <= 12 else None},
-                               model={"results": mres, "final": mfin, "states": msts if nops <= 12 else None},
+            # keep the shortest prefix that already differs
+            cut = nops
+            for i in range(nops):
+                if res[i] != mres[i] or (sts[i] is not None and sts[i] != msts[i]):
+                    cut = i + 1
+                    break
+            small = dict(strip(c))
+            if cut < nops:
+                small["ops"] = c["ops"][: c["_at"][cut - 1] + 1]
+            chk.count("differs:" + diff.split(" ")[0])
+            found = None
+            if probing and not replay and cut <= 64 and chk.extra.get("probes", 0) < 4:
+                chk.extra["probes"] = chk.extra.get("probes", 0) + 1
+                found = probe(chk, small)
+            if found is None and len(chk.corr_breaks) < 12:
+                chk.corr_break("DefaultInMemoryCache vs Cache.run: " + diff + f" (first at operation #{cut - 1})", small,
+                               impl={"results": res[:cut], "state_after": sts[cut - 1] if cut else None,
+                                     "final": fin if cut == nops else None},
+                               model={"results": mres[:cut], "state_after": msts[cut - 1] if cut else None,
+                                      "final": mfin if cut == nops else None},
                                theorems=THEOREMS)
 
 
@@ -413,10 +431,14 @@ def probe(chk, case):
     for k in keys:
         tails.append([["get", k]] + [["set", "~g", n, None]] + gets)
     ext = []
-    for cut in range(len(base), 0, -1):
-        for tl in tails:
-            ext.append({"kind": "seq", "cap": cap, "t0": case.get("t0", 0), "ops": base[:cut] + tl, "fam": "probe"})
-        if len(ext) > 400:
+    for tl in tails:
+        ext.append({"kind": "seq", "cap": cap, "t0": case.get("t0", 0), "ops": base + tl, "fam": "probe"})
+    # and neighbours of the case: one operation dropped, then the probes
+    for drop in range(len(base) - 1):
+        for tl in tails[:2]:
+            ext.append({"kind": "seq", "cap": cap, "t0": case.get("t0", 0), "ops": base[:drop] + base[drop + 1:] + tl,
+                        "fam": "probe"})
+        if len(ext) > 300:
             break
     sub = lib.Check(chk.prop, chk.tier, chk.seed)
     sub.findings = chk.findings
@@ -885,6 +907,10 @@ def corpus_cases():
     return out
 
 
+def stop_early(chk):
+    return len(chk.violations) > 40 or len(chk.corr_breaks) >= 12
+
+
 def chunks(it, n):
     buf = []
     for x in it:
@@ -930,17 +956,21 @@ def run(chk):
         fams.append((4, [0, 1, 2, 3], 1))
     for length, caps, stride in fams:
         for ch in chunks(enum_cases(length, caps, stride), 30000):
-            check_seq(chk, ch)
-            if len(chk.violations) > 40 or len(chk.corr_breaks) > 40:
+            if stop_early(chk):
                 break
-    chk.exhaustive = True
+            check_seq(chk, ch)
+    chk.exhaustive = not stop_early(chk)
     # 3. seeded random
     n1, n2, n3 = (20000, 2500, 40) if quick else (200000, 30000, 400)
     for ch in chunks((random_case(rng, 4, 8, "random4-8") for _ in range(n1)), 25000):
-        check_seq(chk, ch)
+        if not stop_early(chk):
+            check_seq(chk, ch)
     for ch in chunks((random_case(rng, 9, 60, "random9-60") for _ in range(n2)), 10000):
-        check_seq(chk, ch)
-    check_seq(chk, [bigkey_case(rng, 1.0 if quick else 2.5) for _ in range(n3)])
+        if not stop_early(chk):
+            check_seq(chk, ch)
+    for ch in chunks((bigkey_case(rng, 1.0 if quick else 2.5) for _ in range(n3)), 20):
+        if not stop_early(chk):
+            check_seq(chk, ch)
     # 4. concurrency
     t_conc = time.time()
     budget = (18 if quick else 240) * (3 if not rep["ok"] else 1)
